@@ -34,8 +34,9 @@
      operation is still in flight, so nobody else reads the timer cell).
 
    Bookkeeping that is not part of the model (`aux`): thread modes, coroutine identities, the normalised object ids
-   of io_flag words and coroutine slots (bound to a descriptor at first sight and compared ever after; forgotten when
-   the descriptor is closed: the allocator may reuse the address), which thread serves a descriptor (events and
+   of io_flag words and coroutine slots (bound to a descriptor at first sight and compared ever after; the binding of a
+   closed descriptor may be replaced: the allocator may reuse the address, while a late event or timer of the closed
+   descriptor still finds its data, which the selector frees), which thread serves a descriptor (events and
    timers of one descriptor must come from one thread), cancel targets announced by the scenario. *)
 From Coq Require Import List ZArith Bool Arith.
 Import ListNotations.
@@ -107,10 +108,12 @@ Definition res_ok (o : option res) (l : list nat) : bool :=
   match o with Some (ROk l') => list_eqb l l' | _ => false end.
 
 (* bind the descriptor of an object at first sight, compare afterwards *)
-Definition bindo (m : list (Z * nat)) (o : Z) (f : nat) : option (list (Z * nat)) :=
+Definition bindo (dead : nat -> bool) (m : list (Z * nat)) (o : Z) (f : nat) : option (list (Z * nat)) :=
   match zassoc m o with
   | None => Some ((o, f) :: m)
-  | Some f' => if Nat.eqb f f' then Some m else None
+  | Some f' => if Nat.eqb f f' then Some m
+               else if dead f' then Some ((o, f) :: m)     (* the allocator reused the address of a closed descriptor's data *)
+               else None
   end.
 Definition unbind (m : list (Z * nat)) (f : nat) : list (Z * nat) := filter (fun p => negb (Nat.eqb (snd p) f)) m.
 Definition bindthr (m : nat -> option nat) (f t : nat) : option (nat -> option nat) :=
@@ -262,8 +265,7 @@ Definition mkplan (s : ast) (e : list Z) : plan :=
                                     | Some (RWrote n) => Nat.eqb n (if dg then 1%nat else Z.to_nat v) && outside (apc (A m' a)) | _ => false end)
             else None
         | 2 | 4 => (* close (2: stream, the peer sees the end of the stream; 4: datagram socket) *)
-            let x' := set_oco (set_oflag x (unbind (oflag x) f') (preflag x)) (unbind (oco x) f') in
-            acts x' ((if Z.eqb op 2 && negb (wshut (P m f')) then [Shutdown f'] else []) ++
+            acts x ((if Z.eqb op 2 && negb (wshut (P m f')) then [Shutdown f'] else []) ++
                      (if closed m f' || is_some (busy m f') then [] else [Close f']))
         | 3 => (* shutdown(Write) *)
             acts x (if wshut (P m f') then [] else [Shutdown f'])
@@ -299,7 +301,7 @@ Definition mkplan (s : ast) (e : list Z) : plan :=
     (* ---- the caller: IoData::reset, done() ---- *)
     | 20 => (* IoData::reset: io_flag.swap(0) -> old *)
         if at_ PReset then
-          match bindo (oflag x) obj f with
+          match bindo (closed m) (oflag x) obj f with
           | Some ofl =>
               (* an event was reported on this word before the descriptor was known: it is played now; the selector
                  thread that reported it may still be on its way to the coroutine slot (`selpre`) *)
@@ -323,7 +325,7 @@ Definition mkplan (s : ast) (e : list Z) : plan :=
     | 23 => (* co.store(co) *)
         match tm x t with
         | MKer k =>
-            match bindo (oco x) obj (sfd (Sb m k)) with
+            match bindo (closed m) (oco x) obj (sfd (Sb m k)) with
             | Some oc =>
                 match spc_ (Sb m k) with
                 | SStore => acts (set_oco x oc) [Sub k false]
@@ -430,7 +432,7 @@ Definition mkplan (s : ast) (e : list Z) : plan :=
     | 41 => (* select: co.take() -> some *)
         match selcur x t with
         | Some f' =>
-            match Sel m f', bindo (oco x) obj f' with
+            match Sel m f', bindo (closed m) (oco x) obj f' with
             | SEv _, Some oc => chk (Bool.eqb (znz v) (is_some (co m f'))) (acts (set_oco x oc) [SelTake f'])
             | SIdle, _ => ok x       (* an event on a word that was not bound yet: nothing to take *)
             | _, _ => None
@@ -472,7 +474,7 @@ Definition mkplan (s : ast) (e : list Z) : plan :=
     | 43 => (* timeout_handler: co.take() -> some *)
         match selcur x t with
         | Some f' =>
-            match Sel m f', bindo (oco x) obj f' with
+            match Sel m f', bindo (closed m) (oco x) obj f' with
             | THnd2 _ _, Some oc => chk (Bool.eqb (znz v) (is_some (co m f'))) (acts (set_oco x oc) [SelHnd f'])
             | SEv _, Some oc => chk (negb (znz v) && negb (is_some (co m f'))) (acts (set_oco x oc) [SelTake f'])   (* see 42 *)
             | _, _ => None
